@@ -1080,6 +1080,30 @@ def kernels(start_id):
             fin = {"k": "bin", "op": "+", "a": fin, "b": c}
         f = {"name": fn, "params": ["g"], "ptypes": [("raw", "()->int")], "rtype": INT, "body": {"stmts": [{"k": "mark", "tag": T(3)}], "fin": fin}}
         add([], [f], {"stmts": [{"k": "mark", "tag": T(4)}], "fin": {"k": "app", "f": fn, "args": [ulam(T(0), 7)]}})
+    # K6s shadowing: an inner binder (lambda parameter, inner function parameter, arm variable, a let in a branch block) with the name of
+    # an outer variable of ANOTHER type that is used again afterwards: the outer variable is untouched
+    sv = lambda x: {"k": "var", "x": x}
+    outer = {"k": "let", "x": "x", "e": {"k": "probe", "tag": T(0), "e": {"k": "str", "v": "outer"}}, "vt": STR}
+    after = {"k": "bin", "op": "+", "a": sv("x"), "b": {"k": "str", "v": "!"}}
+    ints = {"k": "slice", "es": [{"k": "int", "v": 1}, {"k": "int", "v": 2}]}
+    inc = {"k": "bin", "op": "+", "a": sv("x"), "b": {"k": "int", "v": 1}}
+    add([], [], {"stmts": [outer, {"k": "let", "x": "zs", "e": {"k": "app", "f": "slice.Map", "args": [{"k": "lam", "params": ["x"], "body": {"stmts": [], "fin": inc}}, ints]}, "vt": ("sl", INT)}],
+                 "fin": {"k": "tuple", "es": [after, sv("zs")]}}, ("tup", (STR, ("sl", INT))))
+    add([], [], {"stmts": [outer, {"k": "letfun", "name": "g", "params": ["x"], "ptypes": [INT], "body": {"stmts": [{"k": "mark", "tag": T(1)}], "fin": inc}},
+                           {"k": "let", "x": "n", "e": {"k": "app", "f": "g", "args": [{"k": "int", "v": 5}]}, "vt": INT}],
+                 "fin": {"k": "tuple", "es": [after, sv("n")]}}, ("tup", (STR, INT)))
+    un = "P%dSh" % pid[0]
+    cs = [{"n": "P%dS0" % pid[0], "p": True}, {"n": "P%dS1" % pid[0], "p": False}]
+    add([{"k": "union", "name": un, "cases": cs, "ptypes": [INT, None]}], [],
+        {"stmts": [outer, {"k": "let", "x": "u", "e": {"k": "ctor", "union": un, "case": cs[0]["n"], "arg": {"k": "int", "v": 4}}, "vt": ("uni", un)},
+                   {"k": "let", "x": "n", "vt": INT, "e": {"k": "umatch", "target": sv("u"),
+                                                        "arms": [{"case": cs[0]["n"], "bind": "x", "body": {"stmts": [], "fin": inc}},
+                                                                 {"case": cs[1]["n"], "bind": "", "body": {"stmts": [], "fin": {"k": "int", "v": 0}}}], "dflt": {"k": "none"}}}],
+         "fin": {"k": "tuple", "es": [after, sv("n")]}}, ("tup", (STR, INT)))
+    add([], [], {"stmts": [outer, {"k": "let", "x": "n", "vt": INT, "e": {"k": "if", "c": _pb(T(2), True),
+                                                                    "t": {"stmts": [{"k": "let", "x": "x", "e": {"k": "int", "v": 7}, "vt": INT}], "fin": inc},
+                                                                    "e": {"stmts": [], "fin": {"k": "int", "v": 0}}}}],
+                 "fin": {"k": "tuple", "es": [after, sv("n")]}}, ("tup", (STR, INT)))
     # K7 recursion: linear, double (order of the two calls), accumulator through a slice, under a match on a recursive union
     def v(x):
         return {"k": "var", "x": x}
